@@ -983,6 +983,11 @@ where
                 }
             };
 
+            // If formatting a previous event panicked (for example in a user's
+            // `Debug` implementation) and the panic was caught, the thread-local
+            // buffer still holds that event's partial output.
+            buf.clear();
+
             let ctx = self.make_ctx(ctx, event);
             if self
                 .fmt_event
